@@ -96,19 +96,7 @@ Theorem C27_fuel_sufficient : forall w c declared opn g o,
 Proof. exact run_op_never_out_of_fuel. Qed.
 Print Assumptions C27_fuel_sufficient.
 
-(* -- non-vacuity ---------------------------------------------------------------------------------- *)
-Definition ex_imp (l : list nat) : import := {| i_plain := Some l; i_rel := false; i_rooted := [] |}.
-(* a.m imports b.m and c.m, b.m imports c.m, c.m imports a.m (cycle + diamond) *)
-Definition ex_world : list file :=
-  [ {| f_imports := [ex_imp [1]; ex_imp [2]]; f_prim := false |};
-    {| f_imports := [ex_imp [2]]; f_prim := false |};
-    {| f_imports := [ex_imp [0]]; f_prim := false |} ].
-Definition ex_cfg : cfg := {| c_prov := PImportURI; c_grepo := true |}.
-Definition k_p : list N := [112]%N.
-Definition k_debug : list N := [100;101;98;117;103]%N.
-Definition ex_op (kw : list (list N * N)) : op :=
-  {| o_entry := EFile 0; o_content := {| f_imports := []; f_prim := false |}; o_is_str := true; o_kw := kw |}.
-
+(* -- non-vacuity (example world ex_world etc.: end of Model/Params.v) ------------------------------- *)
 (* load of a.m with project_root=5, p=0, debug=3: accepted (debug is an explicit argument), three
    models created, all carrying (project_root=5, p=0); a second load with other values returns the
    cached model and leaves every model as it was *)
